@@ -790,6 +790,29 @@ theorem deco_partial_falls_through_to_caller (env : Env) (k : K) (n : String) (t
   rw [← hc.1] at he
   exact partial_leaf_falls_through env k n t s s' ht he
 
+/-- **prebuilt_enters_at_enter_time.**  An interpretation object constructed anywhere, at any time
+    (constructing is pure with respect to the stack: `Memoize(P)`, `PrioritizedInterpretation(P, W)`, a
+    StatefulInterpretation instance hold only their arguments) and ENTERED while `t` is active: if it is
+    partial, what it declines is answered exactly as `t` — the interpretation active at ENTER time —
+    answers it; the context it was constructed under plays no role.  (Corollary of
+    `partial_falls_through`; the decorator form `@c` is the same by `deco_is_with_at_call_time`.) -/
+theorem prebuilt_enters_at_enter_time (env : Env) (k : K) (i t : I) (s s' : Stack) (nx m : Nat)
+    (hp : i.isTotal = false) (ht : top? s = some t)
+    (h : enter env (.built i) s nx = .ok (s', m)) :
+    ∃ p, s' = push p s ∧
+      handler env k p = match handler env k i with
+        | some h => some h
+        | none => handler env k t := by
+  obtain ⟨i', hc, he⟩ := enter_ok h
+  simp only [ctxObj, Except.ok.injEq, Prod.mk.injEq] at hc
+  rw [← hc.1] at he
+  exact partial_falls_through env k i t s s' hp ht he
+
+/-- …and a total prebuilt object is pushed as it is, whatever is active. -/
+theorem prebuilt_total_pushed_alone (env : Env) (i : I) (s : Stack) (nx : Nat) (ht : i.isTotal = true) :
+    enter env (.built i) s nx = .ok (push i s, nx) := by
+  simp [enter, ctxObj, enterI_total s ht]
+
 /-- **apply_optimizer_falls_through_to_caller.**  Library entry points that push interpretations
     internally behave like the decorator form: `apply_optimizer` (behind `einsum`, the recipes, …)
     interprets the terms it rebuilds under `optimize_base` layered over the interpretation that is active
@@ -922,6 +945,7 @@ theorem stack_stays_total (env : Env) (p : Prog) (st : St) (h : AllTotal st.stac
 
 def CtxFresh : Ctx → Bool
   | .memoShared _ => false
+  | .built i => WF i
   | _ => true
 
 /-- the program never passes an explicit `cache=` -/
@@ -1009,6 +1033,10 @@ theorem ctxObj_wf {env : Env} (henv : EnvWF env) {c : Ctx} {s : Stack} {nx n : N
     · next t htop => cases h; simp [WF, hs t (List.mem_of_getLast? htop)]
     · cases h
   | memoShared c => simp [CtxFresh] at hc
+  | built i' =>
+    simp only [ctxObj, Except.ok.injEq, Prod.mk.injEq] at h
+    rw [← h.1]
+    simpa [CtxFresh] using hc
   | tape =>
     simp only [ctxObj] at h
     split at h
